@@ -72,8 +72,8 @@ Qed.
 
 Lemma J_nl_clear : Pres nl_clear.
 Proof.
-  unfold nl_clear. intros r H. apply Pres_bind; [apply J_regrow; apply J_free_where; exact H|].
-  intros r2 H2. apply J_regrow. apply J_free_where. exact H2.
+  unfold nl_clear. intros r H. cbv zeta. apply Pres_bind; [apply J_regrow; apply J_free_where; apply J_free_where; exact H|].
+  apply J_regrow.
 Qed.
 
 Lemma J_rclear : PresT rclear.
@@ -123,11 +123,12 @@ Qed.
 
 Lemma J_rstep o : PresT (rstep true o).
 Proof.
-  intros r H. destruct o as [k v trigs ev|k|t| |f]; cbn [rstep].
+  intros r H. destruct o as [k v trigs ev|k|t| |k|f]; cbn [rstep].
   - apply J_store. exact H.
   - apply J_delete_node. exact H.
   - apply (J_fold_delete (linked_keys t (r_b r))). exact H.
   - apply J_rclear. exact H.
+  - exact H.
   - apply J_faults. exact H.
 Qed.
 
